@@ -277,7 +277,7 @@ prop("C19", ["det_shared_state_layout", "null_guard_layout", "da_layout", "key_l
      "mean bond length = sum of end-point distances over all edges / number of edges; every position multiplied by default_bond / mean; only isometries "
      "may write positions afterwards; the rescaled dict is returned",
      "finiteness, non-coincidence of bonded nodes, independence from labelling: numerical properties of networkx' optimisers",
-     floors={"DET.shared-state": 5, "NULL.optional-param": 1, "DA.layout": 21, "KEY.K3-layout": 4, "OWN.layout-input": 1, "OWN.mutable-defaults": 2, "NORM.scale": 2, "ORD.scale-last": 2})
+     floors={"DET.shared-state": 5, "NULL.optional-param": 1, "DA.layout": 21, "KEY.K3-layout": 2, "OWN.layout-input": 1, "OWN.mutable-defaults": 2, "NORM.scale": 2, "ORD.scale-last": 2})
 prop("C20", ["tok_rules", "ring_marker_text", "da_resolver", "exc_dangling_ring", "sib_ring_handlers", "exc_duplicate_edge", "exc_missing_fragment", "exc_annotations", "exc_handlers", "tab_dialects"],
      "each documented fault has a raise site of the documented type whose guard dominates the success exit; the open-ring table is written only by the two "
      "identical handlers; no handler between fault site and API swallows or retypes the error; numeric keys are declared float",
